@@ -333,7 +333,7 @@ class C14(Spec):
     prop = "C14"
     coq_targets = ["Props/C14.vo"]
     prop_module = "Props.C14"
-    theorems = ["C14_lex_total_partial", "C14_parse_total_partial", "C14_safe_means", "C14_parse_total", "C14_parse_total_default_fuel", "C14_error_carries_token", "C14_lex_parse_total", "C14_literal_panics_unreachable", "C14_fuel_length_plus_1_insufficient", "C14_invalid_literal_token_is_synthesised", "C14_refuted_to_rust_unbounded_recursion_on_recursive_untagged_type",
+    theorems = ["C14_lex_total_partial", "C14_parse_total_partial", "C14_safe_means", "C14_parse_total", "C14_parse_total_default_fuel", "C14_error_carries_token", "C14_lex_parse_total", "C14_resolve_total", "C14_resolve_total_outside_class", "C14_cyclic_import_never_resolves", "C14_import_lookup_fuel_exact", "C14_tag_resolution_total", "C14_cyclic_b_iff", "C14_tag_fuel_bound", "C14_front_end_total", "C14_front_end_outcomes", "C14_op_3303_crash", "C14_cyclic_import_diverges", "C14_untagged_choice_cycle_diverges", "C14_class_wider_than_divergence_on_short_circuit", "C14_nonvacuous_two_hop_import_chain", "C14_literal_panics_unreachable", "C14_fuel_length_plus_1_insufficient", "C14_invalid_literal_token_is_synthesised", "C14_refuted_to_rust_unbounded_recursion_on_recursive_untagged_type",
                 "C14_refuted_resolver_unbounded_recursion_on_cyclic_import"]
     MODEL_OPS = {3303}
     builds = [("default", "dev"), ("default", "release"), ("protobuf", "dev")]
@@ -347,8 +347,11 @@ class C14(Spec):
                   'whole parser model (module header, imports, definitions, the mutual type grammar, literals, WITH COMPONENTS) '
                   'never panics and never runs out of fuel once fuel >= 2*length+4 (so every loop consumes a token: no '
                   'non-termination), C14_lex_parse_total composes both, C14_error_carries_token: every error carries a token of '
-                  'the input (or the synthesised literal token at an input position). Totality of resolve / to_rust / to_protobuf '
-                  'is by the tie and the process supervisor only; the two known divergences have vm_compute witnesses.')
+                  'the input (or the synthesised literal token at an input position). C14_resolve_total / C14_tag_resolution_total / '
+                  'C14_front_end_total (Front/ResolveTotalProofs.v): the resolver and the tag-resolution recursion of to_rust never panic and '
+                  'diverge exactly in two syntactic classes (cyclic import of an undefined name; untagged CHOICE / reference cycle, decidable '
+                  'cyclic_b), with explicit fuel bounds and vm_compute witnesses; the rest of to_rust and to_protobuf are covered by the tie and '
+                  'the process supervisor.')
     rule = ("valid modules (the C07 generator, nesting <= 5, and hand-written ones) mutated by 1..4 character/token deletions, "
             "insertions (ASCII, control and non-ASCII characters; the ASN.1 vocabulary), swaps, replacements, duplications and "
             "truncations; token soups from the ASN.1 vocabulary (bare and behind a module header); the unmutated modules. "
